@@ -4,10 +4,13 @@ import (
 	"fmt"
 	"go/ast"
 	"go/constant"
+	"go/parser"
 	"go/token"
 	"go/types"
 	"math/big"
 	"strings"
+
+	"golang.org/x/tools/go/packages"
 )
 
 // Additional structural rules found necessary by independently seeded variants.
@@ -1319,10 +1322,10 @@ func ruleClampComplete(c *Ctx) {
 }
 
 // Compose, two necessary conditions of "exact or error":
-//  - a loop that strips k digits at a time while the value exceeds a threshold strips only digits
-//    that have to go (the threshold divided by 10^(k-1) still exceeds the largest coefficient), so
-//    a representable value is never rejected for a non-zero digit that could have been kept;
-//  - the coefficient handed to compose lies within the coefficient range (interval analysis).
+//   - a loop that strips k digits at a time while the value exceeds a threshold strips only digits
+//     that have to go (the threshold divided by 10^(k-1) still exceeds the largest coefficient), so
+//     a representable value is never rejected for a non-zero digit that could have been kept;
+//   - the coefficient handed to compose lies within the coefficient range (interval analysis).
 func ruleComposeRange(c *Ctx) {
 	p := c.P
 	fd := c.fn("Decimal.Compose")
@@ -1482,8 +1485,9 @@ func ruleBinarySeed(c *Ctx) {
 
 // d ± 1 on decomposed192 values: the early exits return either the constant one (d is negligible) or d
 // itself (one is negligible); the sign that comes with each is fixed by the operation:
-//   sub1    = d - 1 : one -> negative, d -> positive
-//   add1neg = 1 - d : one -> positive, d -> negative
+//
+//	sub1    = d - 1 : one -> negative, d -> positive
+//	add1neg = 1 - d : one -> positive, d -> negative
 func ruleUnitOps(c *Ctx) {
 	p := c.P
 	spec := map[string][2]bool{ // [sign with the constant one, sign with d]
@@ -1631,6 +1635,27 @@ func ruleNilParams(c *Ctx) {
 // A remainder of a signed value is compared with a non-zero constant only where the interval
 // analysis shows the value to be non-negative.
 func ruleSignedRemainder(c *Ctx) {
+	// positive example first (the rule expects zero matches on the real tree)
+	if c.selfTest == nil {
+		st, err := selfTestProg("package selftest\nfunc odd(x int) bool { return x%2 == 1 }\nfunc even(x int) bool { return x%2 == 0 }\nfunc oddNonNeg(x int) bool { if x < 0 { return false }; return x%2 == 1 }\n")
+		if err != nil {
+			c.undecided("modsign.selftest", nil, "the positive example could not be type-checked: "+err.Error())
+		} else {
+			sub := &Ctx{P: st, rule: c.rule, selfTest: st}
+			ruleSignedRemainder(sub)
+			bad, ok := 0, 0
+			for _, o := range sub.Obls {
+				switch o.Verdict {
+				case vOK:
+					ok++
+				default:
+					bad++
+				}
+			}
+			c.check(bad == 1 && ok == 2, "modsign.selftest", nil, "the rule reports `x%2 == 1` on a signed x and accepts `x%2 == 0` and the guarded form (synthetic example)",
+				fmt.Sprintf("self-test of the rule failed: %d reports, %d accepted on the synthetic example (want 1 and 2)", bad, ok))
+		}
+	}
 	p := c.P
 	n := 0
 	for _, name := range p.sortedFuncNames() {
@@ -1674,4 +1699,29 @@ func ruleSignedRemainder(c *Ctx) {
 	if n < 1 {
 		c.Notes = append(c.Notes, "modsign: no remainder of a signed value is compared with a constant")
 	}
+}
+
+// selfTestProg type-checks a small synthetic source (no imports) into a Prog, so that a rule whose
+// expected count on the real tree is zero can be shown to match its positive example on every run.
+func selfTestProg(src string) (*Prog, error) {
+	fset := token.NewFileSet()
+	f, err := parser.ParseFile(fset, "selftest.go", src, 0)
+	if err != nil {
+		return nil, err
+	}
+	info := &types.Info{Types: map[ast.Expr]types.TypeAndValue{}, Defs: map[*ast.Ident]types.Object{}, Uses: map[*ast.Ident]types.Object{},
+		Selections: map[*ast.SelectorExpr]*types.Selection{}, Implicits: map[ast.Node]types.Object{}, Scopes: map[ast.Node]*types.Scope{}}
+	pkg, err := (&types.Config{}).Check("selftest", fset, []*ast.File{f}, info)
+	if err != nil {
+		return nil, err
+	}
+	pr := &Prog{Dir: "", Fset: fset, Pkg: &packages.Package{Types: pkg, TypesInfo: info, Fset: fset, Syntax: []*ast.File{f}}, Info: info, Files: []*ast.File{f},
+		Funcs: map[string]*ast.FuncDecl{}, FuncObj: map[*types.Func]*ast.FuncDecl{}}
+	for _, d := range f.Decls {
+		if fd, ok := d.(*ast.FuncDecl); ok {
+			pr.Funcs[fd.Name.Name] = fd
+			pr.NFuncs++
+		}
+	}
+	return pr, nil
 }
